@@ -118,6 +118,8 @@ def heapRun (nodes maxreps ops : String) : String :=
       | ["S", p, c, v] => Heap.setParent (rules (v == "1")) p.toNat! c.toNat! h
       | ["U", c] => Heap.unsetParent c.toNat! h
       | ["N"] => (h, .ok ())
+      | ["E", p, c, i, v] => Heap.setChild (rules (v == "1")) p.toNat! c.toNat! (i.toInt?.getD 0) h
+      | ["D", p, nm, i] => Heap.removeByName p.toNat! nm (i.toInt?.getD 0) h
       | ["T", p, c, v] => Heap.setTrav (rules (v == "1")) p.toNat! c.toNat! h
       | ["P", c, v] => Heap.promote (rules (v == "1")) h.length c.toNat! h
       | _ => (h, .error .crash)
